@@ -99,6 +99,9 @@ def norm_guard(fi, expr, pol):
     if isinstance(expr, ast.Compare) and len(expr.ops) == 1:
         op = expr.ops[0]
         l, r = fi.canon(expr.left), fi.canon(expr.comparators[0])
+        if isinstance(op, ast.NotEq):
+            a, b = sorted([l, r])
+            return '%s == %s' % (a, b), not pol
         if type(op) in _FLIP:
             return '%s %s %s' % (l, {'Eq': '==', 'Is': 'is', 'In': 'in'}[_FLIP[type(op)].__name__], r), not pol
         if isinstance(op, ast.Eq):
